@@ -193,7 +193,11 @@ func (response *Response) Validate(ctx context.Context, opts ...ValidationOption
 		return errors.New("a short description of the response is required")
 	}
 	if vo := getValidationOptions(ctx); !vo.examplesValidationDisabled {
-		vo.examplesValidationAsReq, vo.examplesValidationAsRes = false, true
+		// examples below are checked as response data: carried by a copy of the options, so that it
+		// holds without caller options too and does not outlive this response
+		asRes := *vo
+		asRes.examplesValidationAsReq, asRes.examplesValidationAsRes = false, true
+		ctx = context.WithValue(ctx, validationOptionsKey{}, &asRes)
 	}
 
 	if content := response.Content; content != nil {
